@@ -126,3 +126,45 @@ def conversions(ctx: Ctx) -> None:
     p = ctx.p
     from ..engines.structure import conversion_structure
     conversion_structure(ctx)
+
+
+def thorough(ctx: Ctx) -> None:
+    """Thorough tier: the abstract transition system of the freshness state.  Nodes = freshness states (abs/rel flag),
+    edges = (method, pre-state) -> post-states as computed by the typestate engine; the set reachable from the
+    constructor's exit states under all public operations is computed and every reachable state is checked against the
+    invariant (the induction of the quick tier, made explicit as a closure computation)."""
+    eng = TypestateEngine(ctx.p, "Sequence")
+    ci = eng.ci
+    methods = [m for m, fi in ci.methods.items() if not fi.is_static and m not in PRIMITIVES and m != "__init__"]
+    init_states = set()
+    for a in (NONE, ("content", True)):
+        for r in (NONE, ("content", True)):
+            exits, problems, _ = eng.analyse_method("__init__", World(S, S, False, False), (a, r))
+            for _, w, how in exits:
+                if how != "raise":
+                    init_states.add(w.core())
+    table = {}
+    reach = set(init_states)
+    frontier = list(init_states)
+    edges = 0
+    while frontier:
+        core = frontier.pop()
+        for m in methods:
+            exits, problems, _ = eng.analyse_method(m, World(*core))
+            posts = sorted({w.core() for _, w, how in exits if how != "raise"})
+            table[(m, core)] = posts
+            edges += len(posts)
+            for pc in posts:
+                if pc not in reach:
+                    reach.add(pc)
+                    frontier.append(pc)
+    bad = [c for c in reach if not World(*c).inv_ok()[0]]
+
+    def show(c):
+        return f"abs={'fresh' if c[0] == F else 'stale'}{'' if c[2] else '(outdated)'},rel={'fresh' if c[1] == F else 'stale'}{'' if c[3] else '(outdated)'}"
+    ctx.extra["transition_system"] = {
+        "initial_states": sorted(show(c) for c in init_states), "reachable_states": sorted(show(c) for c in reach),
+        "states": len(reach), "transitions": edges, "methods": len(methods), "invalid_reachable": sorted(show(c) for c in bad)}
+    ctx.check(not bad, "TS-CLOSURE", f"all {len(reach)} freshness states reachable from the constructor under {len(methods)} operations satisfy the invariant",
+              function="Sequence", construct="an invalid freshness state is reachable from a constructed Sequence",
+              message=f"{[show(c) for c in bad]}", file=ci.file, node=ci.node)
